@@ -95,7 +95,12 @@ def compare_ref(res, name, t, ref, v):
     res.evaluations += 1
     if ref["EXTENDED_ARG"] != t["EXTENDED_ARG"]:
         res.mismatches.append({"key": "C09|v%s|EXTENDED_ARG" % vs, "detail": {"reference": ref["EXTENDED_ARG"], "xdis": t["EXTENDED_ARG"]}})
-    for cat in CATS:
+    cats = list(CATS)
+    for extra in ("hasarg", "hasexc", "hasjump"):
+        # added to `opcode` in 3.12 / 3.13: compared wherever both sides define them
+        if ref.get(extra) is not None and t.get(extra) is not None:
+            cats.append(extra)
+    for cat in cats:
         a, b = set(ref.get(cat, [])), set(t.get(cat) or [])
         for op in sorted(a | b):
             res.evaluations += 1
